@@ -252,40 +252,65 @@ impl<S: BuildHasher + Default + Clone + Send + Sync + 'static> ConcurrentSet
         Self: 'x;
 
     fn insert_element(&self, element: Self::Element) -> bool {
-        let read = self.0.read();
-        match &*read {
-            TieredStorage::Small(vec_lock) => {
-                let mut vec = vec_lock.write();
+        {
+            let read = self.0.read();
+            match &*read {
+                TieredStorage::Small(vec_lock) => {
+                    let mut vec = vec_lock.write();
 
-                // Upgrade to large storage if exceed threshold
-                if vec.len() == 32 {
-                    let large_set = DashSet::with_hasher(S::default());
-
-                    for item in vec.drain(..) {
-                        large_set.insert(item);
-                    }
-
-                    let result = large_set.insert(element);
-
-                    drop(vec);
-                    drop(read);
-
-                    *self.0.write() = TieredStorage::Large(large_set);
-
-                    result
-                } else {
                     if vec.contains(&element) {
                         return false;
                     }
 
+                    if vec.len() < 32 {
+                        vec.push(element);
+
+                        return true;
+                    }
+
+                    // the small tier is full, upgrade below
+                }
+
+                TieredStorage::Large(set) => return set.insert(element),
+            }
+        }
+
+        // Upgrade to large storage under the outer write lock, so that no
+        // other thread can observe (or insert into) the drained vector, and
+        // re-check the tier since another thread may have upgraded it already.
+        let mut write = self.0.write();
+
+        let large_set = match &mut *write {
+            TieredStorage::Small(vec_lock) => {
+                let vec = vec_lock.get_mut();
+
+                if vec.contains(&element) {
+                    return false;
+                }
+
+                if vec.len() < 32 {
                     vec.push(element);
 
-                    true
+                    return true;
                 }
+
+                let large_set = DashSet::with_hasher(S::default());
+
+                for item in vec.drain(..) {
+                    large_set.insert(item);
+                }
+
+                large_set
             }
 
-            TieredStorage::Large(set) => set.insert(element),
-        }
+            TieredStorage::Large(set) => return set.insert(element),
+        };
+
+        let result = large_set.insert(element);
+
+        *write = TieredStorage::Large(large_set);
+
+        result
     }
 
     fn remove_element(&self, element: &Self::Element) -> bool {
